@@ -52,7 +52,8 @@ def demo_cmds(d, meta):
 
 
 def run_demo(d, meta, n=3):
-    if os.path.exists(os.path.join(d, 'demo.sh')) and not os.path.exists(os.path.join(d, 'demo.c')) and not os.path.exists(os.path.join(d, 'demo.cc')):
+    if os.path.exists(os.path.join(d, 'demo.sh')) and ('demo.sh' in meta.get('run_cmd', '') or (
+            not os.path.exists(os.path.join(d, 'demo.c')) and not os.path.exists(os.path.join(d, 'demo.cc')))):
         res = []
         for _ in range(n):
             rc, out = sh('WT=%s sh %s/demo.sh %s' % (WT, d, WT), cwd=d, timeout=300)
